@@ -2,7 +2,7 @@
   C10 (area arrays) — the array decoder never faults, for every byte string and every type oid.
 
   The model (Model/Arrays.lean) is types.go:DecodeType's array branch, decodeArray and parseArrayElements after the
-  guard patches 07–09 of /verif/fixes/arrays.  Its slice/index primitives check against the length of the slice they
+  guard patches 07–09 of /verif/fixes/arrays (the model is the code after the whole series 01–10).  Its slice/index primitives check against the length of the slice they
   are given, so "no fault" means: no Go panic AND no read beyond the value.  The `int32` multiplication of the
   dimensions wraps in the model exactly as in Go (`wrap32`); the theorems hold for whatever it wraps to.
   The element decoder (`DecodeType` on the element's bytes, area `scalars`) is a parameter: the array code is total
@@ -35,6 +35,14 @@ straight to the element decoder). -/
 theorem C10_total_decodeType (dec : Dec) (hdec : DecTotal dec) (data : Bytes) (oid : Nat) :
     ∃ r, decodeType dec data oid = .ok r :=
   decodeType_total dec hdec data oid
+
+/-- The allocation side, on the model: whatever the header claims (up to 2³¹−1 elements, wrapped products …), the
+list decodeArray returns has at most 8·len(raw) entries — one per bit of a null bitmap that lies inside the value,
+and without a bitmap at most one per byte after the header.  (Go pre-sizes the slice to min(count, len(raw)) and
+appends; before patch 09 it reserved `count` entries up front: 32 GiB for a 20-byte value.) -/
+theorem C10_size_decodeArray (dec : Dec) (raw : Bytes) (elemOid : Nat) (es : List GoVal)
+    (h : decodeArray dec raw elemOid = .ok (.arr es)) : es.length ≤ 8 * raw.length :=
+  decodeArray_size dec raw elemOid es h
 
 /-- non-vacuity of the hypothesis: a total element decoder exists (the opaque one used by the `arrays` family) -/
 example : DecTotal (fun bs _ => .ok (.str bs)) := fun bs _ => ⟨.str bs, rfl⟩
